@@ -16,6 +16,12 @@ import (
 	"time"
 )
 
+// Registry maps a property id to its harness entry point.
+var Registry = map[string]func(r *Run, replay []Case){}
+
+// Register is called from the init() of each property package.
+func Register(prop string, f func(r *Run, replay []Case)) { Registry[prop] = f }
+
 // Hex encodes a byte string in the case-file format ("~" = empty).
 func Hex(b []byte) string {
 	if len(b) == 0 {
